@@ -262,7 +262,12 @@ def run_e2e(case, acc, wd):
                 acc.violation('e2e-output-not-a-candidate', 'output tokens were never handed to the command', case)
         acc.add_extra('sigint_runs', 1)
         if '[ddsmt] interrupted' not in r.stdout:
-            if r.exit == 0 and 'Traceback (most recent call last)' not in r.stderr:
+            if getattr(r, 'completed', False) and r.exit != 0 and 'Traceback (most recent call last)' not in r.stderr:
+                # minimisation was over and its statistics printed when the signal arrived: the
+                # interpreter was killed by it while shutting down (status -2), there was
+                # nothing left to interrupt
+                acc.skip('e2e: signal arrived after minimisation had finished')
+            elif r.exit == 0 and 'Traceback (most recent call last)' not in r.stderr:
                 # The run went on and completed normally: CPython discards a KeyboardInterrupt
                 # that is raised inside a finalizer / weak-reference callback ("Exception
                 # ignored in ..."), which a process full of multiprocessing objects runs often.
